@@ -167,6 +167,9 @@ def replay_glue(p):
         L1 = max(1, cap * n1 - 3) if n1 else 1
         L2 = max(1, cap * n2 - 3) if n2 else 1
         chunk = None if (len(a) > 7 and a[7]) else a[6]
+    elif 'glue_float' in ob:
+        vrl, L1, L2 = a[0], a[1], a[2]
+        chunk = [64.0, 1048576.0][a[3]]
     else:
         vrl, L1, L2, chunk = a[0], a[1], a[2], a[3]
         if len(a) > 4 and a[4]:
